@@ -22,7 +22,9 @@ RULE = (
 	're-use histories (one KeyPair signing a sequence incl. repeats and the empty message, key pairs created in another order and '
 	'used alternately, one facade/key pair/account signing and cosigning several transactions incl. the NEM multisig path, one '
 	'Verifier judging good and bad signatures in turn; one transaction object edited in place between uses; 1-4 cosigners and one '
-	'account over several hashes with ALL cosignatures kept and checked only after the last call), every step against the reference. '
+	'account over several hashes with ALL cosignatures kept and checked only after the last call), every step against the reference; '
+	'facades built from Network objects colliding with a shipped network in name and/or identifier but carrying a random seed (plus '
+	'the equal and by-name controls), expectations from the seed passed in. '
 	'A case is distinct by its (operation, hex arguments) tuple; each is evaluated on the implementation, the oracle and the model.')
 TRUSTED_BASE = [
 	'Lean 4.33 kernel; axioms of the property theorems: subset of {propext, Classical.choice, Quot.sound}',
@@ -604,9 +606,44 @@ class Checker:
 		self.impl = Impl()
 		self.layout = Layout(REPO)
 		self.ops = []  # (name, args dict, impl answer, required answer, model line, model expectation transform)
+		self.network_context = None
 
 	def add(self, name, args, impl_answer, required, model_line, what):
+		if self.network_context is not None:
+			# the facade in use was built from a Network object with this name / identifier (and the seed in `args`)
+			args = dict(args, network_name=self.network_context[0], network_identifier=self.network_context[1])
+			what = f'[facade of Network({self.network_context[0]!r}, 0x{self.network_context[1]:02X}, own seed)] {what}'
 		self.ops.append((name, args, impl_answer, required, model_line, what))
+
+	def custom_facade(self, name, identifier, seed):
+		"""SymbolFacade(Network(name, identifier, epoch, seed)) or, when `identifier` is None, SymbolFacade(name)."""
+		impl = self.impl
+		if identifier is None:
+			return impl._symbol_class(name), None  # pylint: disable=protected-access
+		network = impl._symbol_network(name, identifier, impl._epoch, impl.types[0](seed))  # pylint: disable=protected-access
+		return impl._symbol_class(network), network  # pylint: disable=protected-access
+
+	def with_facade(self, name, identifier, seed):
+		"""Context manager: every facade operation addressed by `seed` goes through the facade built from (name, identifier, seed)."""
+		import contextlib
+		checker = self
+
+		@contextlib.contextmanager
+		def manager():
+			facades = checker.impl._facades  # pylint: disable=protected-access
+			previous = facades.get(seed)
+			facade, network = checker.custom_facade(name, identifier, seed)
+			facades[seed] = facade
+			checker.network_context = (name, -1 if identifier is None else identifier)
+			try:
+				yield facade, network
+			finally:
+				checker.network_context = None
+				if previous is None:
+					facades.pop(seed, None)
+				else:
+					facades[seed] = previous
+		return manager()
 
 	# --- key pairs and raw messages
 
@@ -1129,6 +1166,67 @@ def _transaction_round_body(checker, rng, network, all_bits=False):
 			ctx.count('cosign:' + ('detached' if detached else 'attached'))
 
 
+def _network_round(checker, rng):
+	"""Facades built from Network OBJECTS that collide with a shipped network in name and/or identifier but carry their own
+	generation hash seed (and the control cases): everything the facade signs, verifies, hashes and cosigns is over the seed that
+	was PASSED IN, and `facade.network` carries that seed."""
+	ctx = checker.ctx
+	shipped = {'testnet': 0x98, 'mainnet': 0x68}
+	cases = [
+		('testnet', 0x98, rng.bytes_(32), 'same-name-same-identifier-own-seed'), ('mainnet', 0x68, rng.bytes_(32), 'same-name-same-identifier-own-seed'),
+		('testnet', 0x68, rng.bytes_(32), 'same-name-other-identifier'), ('mainnet', 0x98, rng.bytes_(32), 'same-name-other-identifier'),
+		(rng.choice(['private', 'custom', 'Testnet', 'testnet2']), rng.choice([0x98, 0x68]), rng.bytes_(32), 'other-name-same-identifier'),
+		('devnet', rng.choice([0x98, 0x68]), rng.bytes_(32), 'other-name-same-identifier'),  # the codecs know only 0x68 / 0x98
+		('testnet', 0x98, SYMBOL_SEEDS['testnet'], 'everything-equal'), ('mainnet', 0x68, SYMBOL_SEEDS['mainnet'], 'everything-equal'),
+		('testnet', None, SYMBOL_SEEDS['testnet'], 'by-name'), ('mainnet', None, SYMBOL_SEEDS['mainnet'], 'by-name')]
+	for name, identifier, seed, label in cases:
+		with checker.with_facade(name, identifier, seed) as (facade, network):
+			carried = facade.network.generation_hash_seed.bytes
+			sample = {'op': 'network', 'args': {'network_name': name, 'network_identifier': -1 if identifier is None else identifier, 'seed': seed}}
+			if carried != seed:
+				ctx.fail('property', (
+					f'SymbolFacade built from Network({name!r}, {identifier}, seed {hx(seed)[:16]}..) works with another generation hash seed '
+					f'({hx(carried)[:16]}..)'), dict(sample, implementation=hx(carried), required=hx(seed)))
+			if identifier is not None and (facade.network.name != name or facade.network.identifier != identifier):
+				ctx.fail('property', f'SymbolFacade built from Network({name!r}, {identifier}) reports {facade.network.name!r}, {facade.network.identifier}', sample)
+			ctx.count(f'network:{label}')
+			ctx.count('network:facade.network-is-the-object-passed:' + ('n/a' if network is None else 'yes' if facade.network is network else 'no'))
+			secret = gen_secret(rng)
+			key_pair = checker.impl.key_pair('symbol', secret)
+			for aggregate in (False, True):
+				transaction, _ = gen_symbol_transaction(rng, facade, key_pair, aggregate=aggregate)
+				buffer = transaction.serialize()
+				if facade.transaction_factory.deserialize(buffer).serialize() != buffer:
+					continue
+				payload = checker.payload('symbol', seed, buffer, transaction)
+				signature = checker.sign_transaction('symbol', seed, secret, buffer, transaction)
+				checker.verify_transaction('symbol', seed, buffer, transaction, signature, 'accept', 'the transaction signature does not verify')
+				checker.verify_transaction(
+					'symbol', seed, buffer, transaction, ref_sign('symbol', secret, payload), 'accept',
+					'the reference signature over the passed-in seed + body is not accepted')
+				for other_name, other_seed in SYMBOL_SEEDS.items():
+					if other_seed != seed:
+						checker.verify_transaction(
+							'symbol', seed, buffer, transaction, ref_sign('symbol', secret, checker.layout.symbol_payload(other_seed, buffer)), 'reject',
+							f'a signature over the public {other_name} seed + body is accepted by a facade with its own seed')
+				hashed = facade.hash_transaction(transaction).bytes
+				if hashed != checker.reference_hash('symbol', seed, buffer):
+					ctx.fail('property', f'hash_transaction of a facade built from Network({name!r}, {identifier}, own seed) is not over the passed-in seed', {
+						'op': 'sign_tx', 'args': {'network': 'symbol', 'seed': seed, 'secret': secret, 'transaction': buffer, 'network_name': name,
+							'network_identifier': -1 if identifier is None else identifier}, 'implementation': hx(hashed),
+						'required': hx(checker.reference_hash('symbol', seed, buffer))})
+				if aggregate:
+					for detached in (False, True):
+						checker.cosign(seed, secret, buffer, transaction, detached)
+						expected_hash = checker.reference_hash('symbol', seed, buffer)
+						produced = facade.cosign_transaction(key_pair, transaction, detached).serialize()
+						required = bytes(8) + ref_public_key('symbol', secret) + ref_sign('symbol', secret, expected_hash) + (expected_hash if detached else b'')
+						checker.add('cosign_seed', {'seed': seed, 'secret': secret, 'transaction': buffer, 'detached': detached}, 'ok ' + hx(produced),
+							'ok ' + hx(required), f'cosign {hx(secret)} {hx(expected_hash)} {1 if detached else 0}',
+							'cosignature is not over the transaction hash computed with the passed-in seed')
+			checker.settle()
+
+
 def _history_round(checker, rng, network):
 	"""Objects used more than once: a KeyPair signing a sequence of messages, key pairs created in another order and used
 	alternately, one facade / key pair / account signing several transactions, one Verifier judging several signatures."""
@@ -1364,6 +1462,8 @@ def run(ctx):
 		checker.settle()
 		for _ in range(ctx.scale(5, 60)):
 			_history_round(checker, rng, network)
+	for _ in range(ctx.scale(1, 8)):
+		_network_round(checker, rng)
 	for _ in range(ctx.scale(8, 150)):
 		_voting_round(checker, rng)
 	checker.settle()
@@ -1390,6 +1490,22 @@ def replay(ctx, payload):
 	name = case.get('op')
 	args = {key: _unhex(value) for key, value in (case.get('args') or {}).items()}
 	checker = Checker(ctx)
+	impl = checker.impl
+	if args.get('network_name') is not None and args.get('seed') is not None:
+		# the case was produced through a facade built from a Network object (or a network name): rebuild exactly that facade
+		identifier = args['network_identifier']
+		with checker.with_facade(args['network_name'], None if identifier < 0 else identifier, args['seed']) as (facade, _):
+			carried = facade.network.generation_hash_seed.bytes
+			print(f'  facade.network carries seed {hx(carried)}, passed in {hx(args["seed"])}')
+			if name in ('network', 'cosign_seed'):
+				print('  reproduced' if carried != args['seed'] else '  not reproduced on this tree')
+				return
+			_replay_dispatch(ctx, checker, payload, case, name, args)
+		return
+	_replay_dispatch(ctx, checker, payload, case, name, args)
+
+
+def _replay_dispatch(ctx, checker, payload, case, name, args):
 	impl = checker.impl
 	if 'pubkey' == name:
 		checker.public_key(args['network'], args['secret'])
